@@ -23,6 +23,7 @@ import textx.export as E  # noqa
 
 real_open = builtins.open
 real_replace = os.replace
+real_rename = os.rename
 
 
 class Injected(OSError):
@@ -32,7 +33,9 @@ class Injected(OSError):
 class Disk:
     """Injection plan + what was observed during one run."""
 
-    def __init__(self, outdir, plan, bufsize):
+    def __init__(self, outdir, plan, bufsize, xdev=False):
+        self.xdev = xdev                       # the output folder is on another file system than every other folder
+        self.copy_raw = 0                      # low-level writes made to files opened in binary mode (shutil copies)
         self.outdir = os.path.abspath(outdir)
         self.plan = plan
         self.bufsize = bufsize                 # 0 = the default stack (8 KiB buffer, text layer not write-through)
@@ -93,6 +96,17 @@ class Disk:
                     disk.after_last_write = disk.raw
                     return r
 
+            if "b" in mode:
+                # a byte copy into the output folder (shutil.copyfile): no fileno, so that zero-copy shortcuts
+                # (sendfile & co.) fall back to plain write() calls and cannot get around the injected failure
+                class RawB(Raw):
+                    def fileno(self):
+                        raise io.UnsupportedOperation("fileno")
+
+                    def write(self, b):
+                        disk.copy_raw += 1
+                        return super().write(b)
+                return io.BufferedWriter(RawB(name, "w"))
             raw = Raw(name, "w")
             if self.bufsize:
                 buffered = io.BufferedWriter(raw, buffer_size=self.bufsize)
@@ -100,18 +114,25 @@ class Disk:
             return Txt(io.BufferedWriter(raw), encoding=k.get("encoding", "utf-8"))
         return real_open(name, mode, *a, **k)
 
-    def replace(self, a, b):
+    def replace(self, a, b, real=None):
         self.replaced.append([os.path.basename(a), os.path.basename(b)])
         if self.plan.get("kind") == "replace":
             self.fired = True
-            raise Injected(errno.EXDEV, "injected: replace")
-        return real_replace(a, b)
+            raise Injected(errno.EIO, "injected: replace")
+        if self.xdev and os.path.dirname(os.path.realpath(a)) != os.path.dirname(os.path.realpath(b)):
+            # what rename(2) does between file systems
+            raise OSError(errno.EXDEV, "Invalid cross-device link", a, None, b)
+        return (real or real_replace)(a, b)
+
+    def rename(self, a, b):
+        return self.replace(a, b, real_rename)
 
 
-def run_once(gen, outdir, overwrite, plan, bufsize):
-    disk = Disk(outdir, plan, bufsize)
+def run_once(gen, outdir, overwrite, plan, bufsize, xdev=False):
+    disk = Disk(outdir, plan, bufsize, xdev)
     builtins.open = disk.open
     os.replace = disk.replace
+    os.rename = disk.rename
     raised = None
     try:
         gen(outdir, overwrite)
@@ -126,6 +147,7 @@ def run_once(gen, outdir, overwrite, plan, bufsize):
     finally:
         builtins.open = real_open
         os.replace = real_replace
+        os.rename = real_rename
     return raised, disk
 
 
@@ -149,7 +171,7 @@ def schedule(disk):
         else:
             sched.append("A" if allflushed else "K")
             events.append(nraw)
-    at_close = disk.raw - disk.after_last_write
+    at_close = disk.raw - disk.copy_raw - disk.after_last_write
     if at_close:
         events.append(at_close)
     return sched, events, at_close
@@ -188,15 +210,18 @@ def run_case(case):
         full = real_open(os.path.join(ref, tname), encoding="utf-8").read()
         groups = []
         serial = [0]
-        for bufsize in case["bufsizes"]:
-            probe = os.path.join(d, "probe%d" % bufsize)
+        systmp = os.path.join(d, "systmp")          # the "system temporary folder" of this case (tempfile.gettempdir())
+        os.mkdir(systmp)
+        tempfile.tempdir = systmp
+        for bufsize, xdev in [(b, False) for b in case["bufsizes"]] + [(case["bufsizes"][0], True)]:
+            probe = os.path.join(d, "probe%d_%d" % (bufsize, xdev))
             os.mkdir(probe)
-            raised, pd = run_once(gen, probe, False, {}, bufsize)
+            raised, pd = run_once(gen, probe, False, {}, bufsize, xdev)
             if raised:
                 return {"error": "undisturbed run through the instrumented file failed: %s" % raised}
             got = real_open(os.path.join(probe, tname), encoding="utf-8").read()
             if norm(got) != norm(full):
-                return {"error": "the instrumented file stack changes the output (bufsize %d)" % bufsize}
+                return {"error": "the instrumented file stack changes the output (bufsize %d, other file system %s)" % (bufsize, xdev)}
             sched, events, at_close = schedule(pd)
             total = pd.raw
             plans = [{"kind": "open"}, {"kind": "close"}, {"kind": "replace"}]
@@ -219,7 +244,7 @@ def run_case(case):
                         old = "OLD CONTENT\n"
                         with real_open(tpath, "w") as f:
                             f.write(old)
-                    raised, dk = run_once(gen, od, pre, plan, bufsize)     # pre-existing file: run with --overwrite
+                    raised, dk = run_once(gen, od, pre, plan, bufsize, xdev)     # pre-existing file: run with --overwrite
 
                     def state():
                         if not os.path.exists(tpath):
@@ -227,16 +252,19 @@ def run_case(case):
                         c = real_open(tpath, encoding="utf-8", errors="replace").read()
                         return ("complete" if norm(c) == norm(full) else ("old" if c == old else "partial")), len(c.encode())
                     st, size = state()
-                    others = sorted(x for x in os.listdir(od) if x != tname)
+                    others = sorted(x for x in os.listdir(od) if x != tname) + sorted("<system temp folder>/" + x for x in os.listdir(systmp))
+                    for x in os.listdir(systmp):
+                        os.remove(os.path.join(systmp, x))
                     # a later run without --overwrite (the disk works again)
-                    raised2, dk2 = run_once(gen, od, False, {}, bufsize)
+                    raised2, dk2 = run_once(gen, od, False, {}, bufsize, xdev)
                     st2, size2 = state()
                     out.append({"plan": plan, "pre": pre, "raised": raised, "fired": dk.fired, "target": st, "size": size, "leftovers": others,
                                 "opened": dk.opened, "replaced": dk.replaced, "rerun_target": st2, "rerun_raised": raised2})
                     shutil.rmtree(od, ignore_errors=True)
-            groups.append({"bufsize": bufsize, "sched": sched, "events": events, "raw_total": total, "results": out})
+            groups.append({"bufsize": bufsize, "xdev": xdev, "sched": sched, "events": events, "copy_raw": pd.copy_raw, "raw_total": total, "results": out})
         return {"target": tname, "full_size": len(full.encode()), "groups": groups}
     finally:
+        tempfile.tempdir = None
         shutil.rmtree(d, ignore_errors=True)
 
 
